@@ -222,6 +222,13 @@ pub fn gen_item(rng: &mut Rng, depth: usize) -> G {
 }
 
 fn gen_bounds(rng: &mut Rng, max: usize) -> (usize, Option<usize>) {
+    // one time in sixteen: bounds around the sizes at which buffers are preallocated (16), to go
+    // with the long token runs of `stretch`
+    if rng.chance(1, 16) {
+        let hi = 15 + rng.below(4);
+        let lo = *rng.pick(&[0usize, 1, 16, hi]);
+        return (lo.min(hi), Some(hi));
+    }
     let lo = rng.below(max + 1);
     let hi = if rng.chance(1, 3) { None } else { Some(lo + rng.below(max + 1 - lo)) };
     (lo, hi)
@@ -435,7 +442,20 @@ pub fn gen_scoped(rng: &mut Rng) -> G {
             1 => G::Unrecoverable(b),
             2 => G::Raw(b),
             3 => G::RequireIf(rng.chance(1, 2), b),
-            4 => G::Implies(b, Box::new(G::Maybe(Box::new(G::One(1))))),
+            // the consequent of an implication runs in the enclosing context: it may probe and recover
+            4 => {
+                let cons = match rng.below(4) {
+                    0 => G::Maybe(Box::new(G::One(1))),
+                    1 => G::Probe(5),
+                    2 => G::Both(Box::new(G::Probe(5)), Box::new(G::Recover(1, Box::new(G::One(1)), Rec::Before(5)))),
+                    _ => G::Right(Box::new(G::Maybe(Box::new(G::One(1)))), Box::new(G::Probe(5))),
+                };
+                match rng.below(3) {
+                    0 => G::Implies(b, Box::new(cons)),
+                    1 => G::Antecedent(b, Box::new(cons)),
+                    _ => G::Consequent(b, Box::new(cons)),
+                }
+            }
             5 => G::FilterWith(*rng.pick(&[1u32, 3, 0]), b),
             6 => G::Unfiltered(b),
             7 => G::Stabilize(b),
@@ -516,7 +536,7 @@ fn token_text(rng: &mut Rng, max_len: usize, extra: &[char]) -> String {
             2 => ',',
             3 if !extra.is_empty() => *rng.pick(extra),
             4 if !extra.is_empty() => *rng.pick(extra),
-            5 => *rng.pick(&['\n', '\t', '#', ';', 'é']),
+            5 => *rng.pick(&['\n', '\t', '#', ';', 'é', '\r']),
             _ => *rng.pick(&['a', 'b', 'c', 'd', 'a', 'b']),
         };
         s.push(c);
@@ -613,7 +633,9 @@ pub fn derived_text(g: &G, rng: &mut Rng) -> String {
     }
     let mut s = String::new();
     for t in toks {
-        if rng.chance(1, 4) { s.push(' '); }
+        // (one gap in eight is a lone CR or LF: a zero-width character unless it is the configured
+        // line break)
+        if rng.chance(1, 4) { s.push(if rng.chance(1, 8) { *rng.pick(&['\r', '\n']) } else { ' ' }); }
         s.push_str(t);
     }
     if rng.chance(1, 4) { s.push(' '); }
@@ -849,6 +871,23 @@ pub fn family(out: &mut Out, family: &str, tier: &Tier, rng: &mut Rng) {
                 c
             }
             "bracket" => { let g = gen_bracket(rng, 1); mk(token_text(rng, 9, &['(', ')', '[', ']', '{', '}']), rng, g) }
+            "list" if i % 32 == 30 => {
+                // long lists around the preallocation limit (16 entries) with bounds in the same range
+                let hi = 15 + rng.below(4);
+                let lo = *rng.pick(&[0usize, 2, 16, hi]);
+                let item = if rng.chance(1, 2) { G::One(0) } else { G::Any(vec![0, 1]) };
+                let g = G::List(1 + 2 * rng.below(2) as u8, lo.min(hi), Some(hi), Box::new(item), 4, vec![9]);
+                let mut c = mk(String::new(), rng, g);
+                let n = 13 + rng.below(8);
+                let mut text = String::new();
+                for k in 0..n {
+                    if k > 0 { text.push_str(if rng.chance(1, 6) { " , " } else { "," }); }
+                    text.push_str(if rng.chance(1, 12) { "c" } else { "a" });
+                }
+                text.push_str(*rng.pick(&["", "]", ",]", " ] a"]));
+                c.text = text; c.le = LineEnding::Lf; c.tab = 4; c.filter = Some(1);
+                c
+            }
             "list" if i % 16 == 15 => {
                 // the same bracket parser object applied to several items, some of them with a
                 // close bracket of the wrong kind inside an enclosing bracket of another kind
@@ -882,6 +921,31 @@ pub fn family(out: &mut Out, family: &str, tier: &Tier, rng: &mut Rng) {
                 let mut c = mk(token_text(rng, 10, &[',', ';', ';']), rng, g);
                 c.sink = rng.chance(4, 5);
                 c.invocations = 1 + rng.below(4);
+                c
+            }
+            "twice" if i % 8 == 7 => {
+                // list items that are rules with their own pushed context and a reporting combinator
+                // below it; texts with a trailing separator right before the abort token, so that the
+                // list's speculative (sink-less) trailing-item attempt runs the rule at the abort token
+                let inner = match rng.below(3) {
+                    0 => G::Recover(rng.below(2) as u8, Box::new(G::One(0)), Rec::Before(4)),
+                    1 => G::List(3, 1, None, Box::new(G::One(0)), 5, vec![4, 9]),
+                    _ => G::Bracket(0, vec![6], Box::new(G::One(0)), vec![7], vec![]),
+                };
+                let item = if rng.chance(3, 4) { G::CtxPushed(70 + rng.below(3) as u32, Box::new(inner)) } else { inner };
+                let list = G::List(rng.below(4) as u8, rng.below(2), None, Box::new(item), 4, vec![9]);
+                let g = if rng.chance(1, 2) { list } else { G::Bracket(0, vec![8], Box::new(list), vec![9], vec![]) };
+                let mut c = mk(String::new(), rng, g);
+                let n = 1 + rng.below(3);
+                let mut text = String::from(if rng.chance(1, 2) { "[" } else { "" });
+                for k in 0..n {
+                    if k > 0 { text.push_str(*rng.pick(&[",", " , "])); }
+                    text.push_str(*rng.pick(&["a", "a", "a;a", "(a)", "b"]));
+                }
+                text.push_str(*rng.pick(&[",", " ,", ", ", ""]));
+                text.push_str(*rng.pick(&["]", " ]", "", "] a"]));
+                c.text = text; c.le = LineEnding::Lf; c.tab = 4; c.filter = Some(1);
+                c.sink = i % 2 == 0; c.nctx = rng.below(3);
                 c
             }
             "twice" => { let d = rng.below(3); let g = gen_committed(rng, d); let mut c = mk(token_text(rng, 9, &[',', ';', '[', ']', '(', ')']), rng, g); c.sink = i % 2 == 0; c.nctx = if rng.chance(1, 3) { 1 + rng.below(4) } else { 0 }; c }
